@@ -6,7 +6,7 @@ caught = sys.argv[2]
 strengthened = sys.argv[3] if len(sys.argv) > 3 else ""
 rnd = os.environ.get("ROUND", "")
 src = f"/tmp/seeded{rnd}/{pid}"
-dst = f"/verif/seeded/{pid}" + (f"-r{rnd}" if rnd else "")
+dst = f"/verif/seeded/{pid}" + (f"-r{rnd}" if rnd else "") + os.environ.get("SUFFIX", "")
 os.makedirs(dst, exist_ok=True)
 for f in ("patch.diff", "demo.py"):
     shutil.copy(os.path.join(src, f), os.path.join(dst, f))
